@@ -1,5 +1,6 @@
 import SkyllhModel.Proto
 import SkyllhModel.Model.Load
+import SkyllhModel.Model.LoadI3
 open Proto Load
 
 /-  requests (one per line; names are tokens without blank , : ; | / = characters; cells are integers:
@@ -21,6 +22,10 @@ open Proto Load
         -> cfg=<cfg['datafields'] after the load> ok exp=… mc=… | cfg=… err <class>
       keepf <dpExp,dpMc,anExp,anMc> <cfgFields> <dsFields> <expRen> <mcRen> <keep>  -> exp=<names> mc=<names>
       rename <names> <old:new,…>   -> ok name:source-index,… | err <class>     (rename_fields, any dictionary)
+      pkl <obj|!,…>   -> one <obj> | many <obj,…> | err <class>          (PKLFileLoader.load_data)
+      i3 <fmt> <mode> <bs> <stages> <cfgFields> <dsFields> <expRen> <mcRen> <grlRen> <keep> <prep> <livetime|*>
+         <expfiles|-> <mcfiles|-> <grlfiles|->   (I3Dataset.load_and_prepare_data)
+        -> ok exp=… mc=… grl=… livetime=<bits|none> | err <class>
       abspaths <root_dir> <a:name|r:name,…>  -> resolved names in listed order (get_abs_pathfilename_list)
       orcheck <stage> <stages>  -> 0|1
 -/
@@ -136,6 +141,30 @@ def answer (line : String) : String :=
     let cols : List (Col String DT Int) := (pList id names).zipIdx.map (fun p => ⟨p.1, DT.i8, [Int.ofNat p.2]⟩)
     match renameFields (pRen ren) (⟨cols, 1⟩ : A) with
     | .ok a => "ok " ++ fListD (fun (c : Col String DT Int) => s!"{c.name}:{fList (fun (v : Int) => toString v) c.cells}") a.cols
+    | .error e => "err " ++ fErr e
+  | ["pkl", objs] =>
+    -- PKLFileLoader.load_data: file i holds the object named by token i (`!` = no such file)
+    let os : List (Option String) := (pList id objs).map (fun x => if x == "!" then none else some x)
+    match pklLoad (fun i : Nat => (os[i]?).join) (List.range os.length) with
+    | .ok (.one o) => "one " ++ o
+    | .ok (.many l) => "many " ++ fListD id l
+    | .error e => "err " ++ fErr e
+  | ["i3", fmt, mode, bs, st, cfgF, dsF, eRen, mRen, gRen, keep, prep, lt, eFiles, mFiles, gFiles] =>
+    -- I3Dataset.load_and_prepare_data; lt = `*` (None) or the bit pattern of the live time
+    let ef := pFiles eFiles
+    let mf := pFiles mFiles
+    let gf := pFiles gFiles
+    let fs := mkFs (ef ++ mf ++ gf)
+    let c : DsCfg String DT := ⟨pTable cfgF, pTable dsF, pRen eRen, pRen mRen, pList id keep, [], none⟩
+    match i3LoadAndPrepare i3OpsCell i3NamesStr (pStages st) (loader fmt (pMode mode) (pN bs) fs) (prepRun (pPrep prep)) c
+        (List.range ef.length) ((List.range mf.length).map (· + ef.length))
+        ((List.range gf.length).map (· + ef.length + mf.length)) (pRen gRen)
+        (if lt == "*" then none else some (pI lt)) with
+    | .ok (e, m, g, l) =>
+      let ls := match l with
+        | none => "none"
+        | some v => toString v
+      s!"ok exp={fOpt e} mc={fOpt m} grl={fOpt g} livetime={ls}"
     | .error e => "err " ++ fErr e
   | ["abspaths", root, entries] =>
     -- Dataset.get_abs_pathfilename_list: entries `a:<absolute name>` | `r:<relative name>`
